@@ -318,6 +318,13 @@ func VerifC13BalloonsReconfigure() {
 		verifCover("config-rejected")
 		return
 	}
+	// fixed start of the history: containers of the default type, 1023 mCPU
+	for k := 0; k < verifParam("prefix", 0); k++ {
+		c := w.newContainerOf(0, 1023)
+		if err := w.p.AllocateResources(c); err != nil {
+			delete(w.cache.containers, c.id)
+		}
+	}
 	ops := verifParam("ops", 2)
 	for k := 0; k < ops; k++ {
 		if len(w.ctrs) > 0 && verifParam("releases", 1) != 0 && verifChoice("op", 2) == 1 {
